@@ -70,8 +70,8 @@ func (v Val) String() string {
 // ---------------- SMT context ----------------
 
 type Ctx struct {
-	cuts   []int // assertion indices at which a cut hides earlier loop-local facts
-	qdepth int // nesting depth of spec quantifiers (names of bound variables)
+	cuts     []int // assertion indices at which a cut hides earlier loop-local facts
+	qdepth   int   // nesting depth of spec quantifiers (names of bound variables)
 	decls    []string
 	declared map[string]string // name -> sort
 	asserts  []assertion
@@ -450,9 +450,9 @@ type mergeIn struct {
 type havocMode int
 
 const (
-	hvNone  havocMode = iota // unchanged
-	hvAll                    // whole component arbitrary
-	hvRefs                   // arbitrary at the listed refs (and at refs >= nxtPre if fresh), unchanged elsewhere
+	hvNone havocMode = iota // unchanged
+	hvAll                   // whole component arbitrary
+	hvRefs                  // arbitrary at the listed refs (and at refs >= nxtPre if fresh), unchanged elsewhere
 )
 
 type havocSpec struct {
@@ -604,16 +604,16 @@ func havocState(c *Ctx, from *State, tag string, mod func(comp string) havocSpec
 // ---------------- obligations ----------------
 
 type Obligation struct {
-	Name     string // pkg.func#kind[label]
-	Func     string
-	Kind     string
-	Props    []string
-	Goal     Term // must be valid under asserts[:N]
-	N        int
-	Text     string // source text
-	Pos      string
-	Canary   bool
-	Bounded  string
+	Name      string // pkg.func#kind[label]
+	Func      string
+	Kind      string
+	Props     []string
+	Goal      Term // must be valid under asserts[:N]
+	N         int
+	Text      string // source text
+	Pos       string
+	Canary    bool
+	Bounded   string
 	ModelVars []modelVar
 	// results
 	Status string // discharged | refuted | unknown | error
